@@ -288,6 +288,9 @@ func isExportedName(s string) bool { return s != "" && s[0] >= 'A' && s[0] <= 'Z
 
 // comparePair checks the four predicates on (a, b) against reflect.
 func comparePair(xa xr.Type, ra r.Type, xb xr.Type, rb r.Type, label bool) (errs []string) {
+	if label {
+		rec.Eval(1) // every ordered pair compared is a case of its own
+	}
 	errf := func(format string, args ...interface{}) {
 		if len(errs) < 6 {
 			errs = append(errs, fmt.Sprintf("pair (%v, %v): ", ra, rb)+fmt.Sprintf(format, args...))
